@@ -32,6 +32,7 @@ HdrA == <<H("X-Req", <<"r1", "r2">>)>>
 HdrB == <<H("X-Hdr", <<"h1", "h2">>), H("X-Both", <<"hb">>)>>
 TrlB == <<H("X-Trl", <<"t1">>), H("X-Both", <<"tb">>)>>
 MetaE == <<H("X-Err", <<"e1", "e2">>), H("X-Both", <<"eb">>)>>
+MetaR == <<H("Grpc-Status", <<"14">>), H("Grpc-Message", <<"stale">>), H("X-Err", <<"e1">>)>>
 
 (* design check: every stage x every protocol x kind, small programs *)
 MCInit ==
@@ -70,7 +71,7 @@ GenC01Spec == GenC01Init /\ [][FALSE]_vars
 MsgClasses == {"empty", "ascii", "nonascii", "ctl", "pct", "crlf", "blanks", "long"}
 GenC02Init ==
   \E p \in Protos, k \in Kinds, codec \in {"proto", "json"}, c \in 1..16, m \in MsgClasses, n \in {0, 1, 2},
-     me \in {<<>>, MetaE, <<H("X-Multi", <<"a", "b", "c">>)>>}, a \in {0, 1, 2}, ek \in {"err", "wrapped", "ctxwrap"} :
+     me \in {<<>>, MetaE, <<H("X-Multi", <<"a", "b", "c">>)>>, MetaR}, a \in {0, 1, 2}, ek \in {"err", "wrapped", "ctxwrap"} :
     \E http \in HTTPs(k) :
       /\ (k \in {"unary", "client"} => a = 0)
       /\ InitWith(Mk(p, k, codec, http, <<"none", <<>>>>, 0, <<>>, 0, <<>>, <<M(1, 3)>>, HdrB, TrlB,
